@@ -226,3 +226,54 @@ func H_C12_layout_chunker_large_section() {
 	}
 	vReach("end")
 }
+
+// H_C12_layout_chunker_lists: in a section that has to be split, paragraphs and lists - a list after an introducing
+// paragraph, two lists in a row, a list whose last item reads like an introduction - all land in the chunks exactly once.
+//
+//symgo:harness prop=C12 kernel=K2-layout-chunker-lists
+//symgo:desc one heading, 2 paragraphs of 45 or 75 bytes (enumerated; the second optionally ends in a colon, i.e. reads as a list introduction) and 1..2 bullet lists of two items each (enumerated; the first list's last item optionally ends in "options:"); ChunkerConfig with MaxChunkSize 80, MinChunkSize 20, TargetChunkSize 60, no overlap, list coherence on: every paragraph marker and every list item marker occurs exactly once in the chunk texts; chunk indices consistent
+func H_C12_layout_chunker_lists() {
+	cfg := DefaultChunkerConfig()
+	cfg.MaxChunkSize, cfg.MinChunkSize, cfg.TargetChunkSize, cfg.OverlapSize = 80, 20, 60, 0
+	page := model.NewPage(612, 792)
+	page.Layout = &model.PageLayout{Headings: []model.HeadingInfo{{Level: 1, Text: "Title"}}}
+	fill := "lorem ipsum dolor sit amet consectetur adipiscing elit sed do eiusmod tempor incididunt ut labore"
+	var markers []string
+	for i := 0; i < 2; i++ {
+		mk := "Pm" + string(rune('A'+i))
+		ln := []int{45, 75}[vAnyIntIn(0, 1)]
+		txt := (mk + " " + fill)[:ln-1]
+		if i == 1 && vAnyIntIn(0, 1) == 1 {
+			txt += ":"
+		} else {
+			txt += "."
+		}
+		page.Layout.Paragraphs = append(page.Layout.Paragraphs, model.ParagraphInfo{Text: txt})
+		markers = append(markers, mk)
+	}
+	nl := vAnyIntIn(1, 2)
+	for l := 0; l < nl; l++ {
+		tag := string(rune('A' + l))
+		last := "Li" + tag + "2 second entry"
+		if l == 0 && vAnyIntIn(0, 1) == 1 {
+			last = "Li" + tag + "2 see the remaining options:"
+		}
+		page.Layout.Lists = append(page.Layout.Lists, model.ListInfo{Type: model.ListTypeBullet, Items: []model.ListItem{{Text: "Li" + tag + "1 first entry"}, {Text: last}}})
+		markers = append(markers, "Li"+tag+"1", "Li"+tag+"2")
+	}
+	doc := model.NewDocument()
+	doc.AddPage(page)
+	res, err := NewChunkerWithConfig(cfg).Chunk(doc)
+	vAssert("no-error", err == nil && res != nil)
+	var all strings.Builder
+	for i, c := range res.Chunks {
+		vAssert("index-sequence", c.Metadata.ChunkIndex == i)
+		all.WriteString(c.Text)
+		all.WriteString("\n")
+	}
+	text := all.String()
+	for _, mk := range markers {
+		vAssert("paragraph-or-list-item-exactly-once", strings.Count(text, mk) == 1)
+	}
+	vReach("end")
+}
